@@ -34,6 +34,24 @@ struct nng_msg {
 	nng_sockaddr   m_addr; // set on receive, transport use
 };
 
+#ifdef NNG_VERIF
+// Verification hook H3 (add-only): number of live message objects and of
+// live message references (the sum of all reference counts).  See
+// /verif/DESIGN.md section 6.
+static nni_atomic_int nni_verif_msg_live;
+static nni_atomic_int nni_verif_msg_refs;
+int
+nng_verif_msg_live(void)
+{
+	return (nni_atomic_get(&nni_verif_msg_live));
+}
+int
+nng_verif_msg_refs(void)
+{
+	return (nni_atomic_get(&nni_verif_msg_refs));
+}
+#endif
+
 #if 0
 static void
 nni_chunk_dump(const nni_chunk *chunk, char *prefix)
@@ -345,6 +363,9 @@ void
 nni_msg_clone(nni_msg *m)
 {
 	nni_atomic_inc(&m->m_refcnt);
+#ifdef NNG_VERIF
+	nni_atomic_inc(&nni_verif_msg_refs);
+#endif
 }
 
 // This returns either the original message or a new message on success.
@@ -442,6 +463,10 @@ nni_msg_alloc(nni_msg **mp, size_t sz)
 	// We always start with a single valid reference count.
 	nni_atomic_init(&m->m_refcnt);
 	nni_atomic_set(&m->m_refcnt, 1);
+#ifdef NNG_VERIF
+	nni_atomic_inc(&nni_verif_msg_live);
+	nni_atomic_inc(&nni_verif_msg_refs);
+#endif
 	*mp = m;
 	return (0);
 }
@@ -467,6 +492,10 @@ nni_msg_dup(nni_msg **dup, const nni_msg *src)
 	m->m_pipe = src->m_pipe;
 	nni_atomic_init(&m->m_refcnt);
 	nni_atomic_set(&m->m_refcnt, 1);
+#ifdef NNG_VERIF
+	nni_atomic_inc(&nni_verif_msg_live);
+	nni_atomic_inc(&nni_verif_msg_refs);
+#endif
 
 	*dup = m;
 	return (0);
@@ -475,7 +504,15 @@ nni_msg_dup(nni_msg **dup, const nni_msg *src)
 void
 nni_msg_free(nni_msg *m)
 {
+#ifdef NNG_VERIF
+	if (m != NULL) {
+		nni_atomic_dec(&nni_verif_msg_refs);
+	}
+#endif
 	if ((m != NULL) && (nni_atomic_dec_nv(&m->m_refcnt) == 0)) {
+#ifdef NNG_VERIF
+		nni_atomic_dec(&nni_verif_msg_live);
+#endif
 		nni_chunk_free(&m->m_body);
 		NNI_FREE_STRUCT(m);
 	}
